@@ -302,6 +302,24 @@ fn import_and_compare(
         }
     }
     for (h, bytes) in contents {
+        // over HTTP the content is also fetched the way an exporting client does (GET /cas, the
+        // streaming reader), not only through the library's whole-buffer read
+        if let Some(sock) = tgt.sock.clone() {
+            checks += 1;
+            match crate::httpx::cas_get(&sock, h) {
+                crate::httpx::HOut::Ok(Some(b)) if b == *bytes => {}
+                crate::httpx::HOut::Infra(e) => return Err(infra(format!("connect: {e}"))),
+                other => {
+                    return Err(diff(
+                        Class::Cas,
+                        format!("content {h} ({} bytes) fetched from the target with GET /cas: {:?}", bytes.len(), match other {
+                            crate::httpx::HOut::Ok(o) => format!("{:?} bytes", o.map(|b| b.len())),
+                            o => format!("{o:?}"),
+                        }),
+                    ))
+                }
+            }
+        }
         let got = tgt.ex().cas_read(h, true);
         checks += 1;
         match got {
